@@ -14,7 +14,8 @@
     unused-bit count for bit strings, 4/8-octet IEEE floats, 10+22-bit object
     identifiers)"
         → `unsigned_minimal`, `unsigned_shortest`, `unsigned_canonical_unique`,
-          `integer_minimal`, `integer_shortest`, `bits_header`, `real_len4`,
+          `integer_minimal`, `integer_shortest`, `integer_canonical_unique`,
+          `bits_header`, `real_len4`,
           `double_len8`, `oid_layout`, `oid_word_bijection`, `oid_octets_bijection`
   * "If a value cannot be represented the encoder refuses with an error; it
     never emits octets that decode to a different value"
@@ -1360,6 +1361,159 @@ theorem unsigned_canonical_unique (n : Nat) (h : n < 4294967296) (d : Bytes)
         Nat.pow_le_pow_right (by omega) (by simp only [List.length_cons] at hlt ⊢; omega)
       omega
   exact beVal_inj d' d (by omega) (by rw [hv, h3])
+
+/-! ## uniqueness of the canonical integer form -/
+
+theorem sfoldl (l : Bytes) (acc : Int) :
+    l.foldl (fun acc c => acc * 256 + (c.toNat : Int)) acc = acc * 256 ^ l.length + (beVal l : Int) := by
+  induction l generalizing acc with
+  | nil => simp [beVal]
+  | cons b bs ih =>
+    simp only [List.foldl_cons, List.length_cons]
+    rw [ih, beVal_cons]
+    simp only [Int.natCast_add, Int.natCast_mul, Int.natCast_pow]
+    grind
+
+/-- head octet read as a signed number -/
+def shead (a : UInt8) : Int := if a.toNat ≥ 128 then (a.toNat : Int) - 256 else (a.toNat : Int)
+
+theorem sval_cons (a : UInt8) (l : Bytes) : sval (a :: l) = shead a * 256 ^ l.length + (beVal l : Int) := by
+  simp only [sval, shead]
+  rw [sfoldl]
+
+theorem sval_inj : ∀ (l1 l2 : Bytes), l1.length = l2.length → sval l1 = sval l2 → l1 = l2
+  | [], [], _, _ => rfl
+  | [], _ :: _, h, _ => by simp at h
+  | _ :: _, [], h, _ => by simp at h
+  | a :: l1, b :: l2, hl, hv => by
+      have hl' : l1.length = l2.length := by simpa using hl
+      rw [sval_cons, sval_cons, hl'] at hv
+      have h1 := beVal_lt l1
+      have h2 := beVal_lt l2
+      rw [hl'] at h1
+      have hp := pow256_pos l2.length
+      have hpc : ((256 ^ l2.length : Nat) : Int) = (256 : Int) ^ l2.length := by
+        simp [Int.natCast_pow]
+      generalize hP : (256 : Int) ^ l2.length = P at *
+      generalize hQ : 256 ^ l2.length = Q at *
+      have hPQ : P = (Q : Int) := hpc.symm
+      subst hPQ
+      have hsa : shead a = shead b := by
+        -- (sa - sb) * Q = y - x with |y - x| < Q
+        apply Classical.byContradiction
+        intro hne
+        have hd : (shead a - shead b) * (Q : Int) = (beVal l2 : Int) - (beVal l1 : Int) := by
+          rw [Int.sub_mul]; omega
+        rcases Int.lt_or_gt_of_ne hne with hlt | hgt
+        · have : (shead a - shead b) * (Q : Int) ≤ (-1) * (Q : Int) :=
+            Int.mul_le_mul_of_nonneg_right (by omega) (by omega)
+          omega
+        · have : 1 * (Q : Int) ≤ (shead a - shead b) * (Q : Int) :=
+            Int.mul_le_mul_of_nonneg_right (by omega) (by omega)
+          omega
+      have hab : a.toNat = b.toNat := by
+        have := a.toNat_lt; have := b.toNat_lt
+        unfold shead at hsa
+        split at hsa <;> split at hsa <;> omega
+      have hrest : beVal l1 = beVal l2 := by
+        rw [hsa] at hv; omega
+      rw [UInt8.toNat_inj.mp hab, beVal_inj l1 l2 hl' hrest]
+
+/-- **integer_canonical_unique** — the emitted octets are THE canonical form:
+    any octet string that decodes to `i` and whose first nine bits are not all
+    equal (unless it is a single octet) is the emitted one. -/
+theorem integer_canonical_unique (i : Int) (h1 : -2147483648 ≤ i) (h2 : i < 2147483648) (d : Bytes)
+    (hd : encodeIntegerData i = .ok d) (d' : Bytes) (hd' : decodeIntegerData d' = .ok i)
+    (hcan : ∀ a b rest, d' = a :: b :: rest →
+        ¬ (a.toNat = 0 ∧ b.toNat < 128) ∧ ¬ (a.toNat = 255 ∧ b.toNat ≥ 128)) : d' = d := by
+  obtain ⟨d0, h0, hpos, hlen, hdec, _⟩ := integer_minimal i h1 h2
+  rw [hd] at h0; cases h0
+  have hle := integer_shortest i h1 h2 d hd d' hd'
+  have hne' : d' ≠ [] := by
+    intro h; subst h; simp [decodeIntegerData] at hd'
+  have hne : d ≠ [] := by
+    intro h; subst h; simp at hpos
+  have hv' : sval d' = i := by
+    rw [decodeIntegerData_sval d' hne'] at hd'; exact Except.ok.inj hd'
+  have hv : sval d = i := by
+    rw [decodeIntegerData_sval d hne] at hdec; exact Except.ok.inj hdec
+  -- d' cannot be longer than d: a canonical string of length L > 1 lies outside the range of L−1 octets
+  have hge : d'.length ≤ d.length := by
+    apply Classical.byContradiction
+    intro hlt
+    have hlt : d.length < d'.length := by omega
+    match d', hne', hlt, hv', hcan with
+    | [], hne', _, _, _ => exact absurd rfl hne'
+    | [_], _, hlt, _, _ => simp only [List.length_cons, List.length_nil] at hlt; omega
+    | a :: b :: rest, _, hlt, hv', hcan =>
+      have hc := hcan a b rest rfl
+      have ha := a.toNat_lt; have hb := b.toNat_lt
+      -- value of d' in terms of Q = 256^rest.length
+      rw [sval_cons, beVal_cons] at hv'
+      simp only [List.length_cons] at hv'
+      -- value of d bounded by its length
+      match d, hne, hv with
+      | x :: dr, _, hv =>
+        rw [sval_cons] at hv
+        have hx := x.toNat_lt
+        have hbd := beVal_lt dr
+        have hbr := beVal_lt rest
+        have hmono : 256 ^ dr.length ≤ 256 ^ rest.length := Nat.pow_le_pow_right (by omega) (by
+          simp only [List.length_cons] at hlt; omega)
+        have hpr := pow256_pos rest.length
+        have hpd := pow256_pos dr.length
+        have c1 : ((256 : Int) ^ rest.length) = ((256 ^ rest.length : Nat) : Int) := by simp [Int.natCast_pow]
+        have c2 : ((256 : Int) ^ dr.length) = ((256 ^ dr.length : Nat) : Int) := by simp [Int.natCast_pow]
+        have c3 : ((256 : Int) ^ (rest.length + 1)) = 256 * ((256 ^ rest.length : Nat) : Int) := by
+          rw [Int.pow_succ, c1, Int.mul_comm]
+        rw [c3] at hv'
+        simp only [Int.natCast_add, Int.natCast_mul] at hv'
+        rw [c2] at hv
+        generalize 256 ^ rest.length = Q at *
+        generalize 256 ^ dr.length = D at *
+        generalize beVal rest = y at *
+        generalize beVal dr = z at *
+        -- |i| < 128·D ≤ 128·Q from d;  from d' canonical: i ≥ 128·Q or i < −128·Q
+        have hiD : -(128 * (D : Int)) ≤ i ∧ i < 128 * (D : Int) := by
+          unfold shead at hv
+          have t1 : (-128 : Int) * (D : Int) ≤ shead x * (D : Int) := by
+            apply Int.mul_le_mul_of_nonneg_right _ (by omega)
+            unfold shead; split <;> omega
+          have t2 : shead x * (D : Int) ≤ 127 * (D : Int) := by
+            apply Int.mul_le_mul_of_nonneg_right _ (by omega)
+            unfold shead; split <;> omega
+          unfold shead at t1 t2
+          omega
+        have hb1 : (0 : Int) ≤ (b.toNat : Int) * (Q : Int) := Int.mul_nonneg (by omega) (by omega)
+        have hb2 : (b.toNat : Int) * (Q : Int) ≤ 255 * (Q : Int) :=
+          Int.mul_le_mul_of_nonneg_right (by omega) (by omega)
+        by_cases hs : a.toNat ≥ 128
+        · -- negative head
+          have hsa : shead a = (a.toNat : Int) - 256 := by unfold shead; simp [hs]
+          rw [hsa] at hv'
+          by_cases h255 : a.toNat = 255
+          · have hb128 : b.toNat < 128 := by
+              apply Classical.byContradiction; intro hh; exact hc.2 ⟨h255, by omega⟩
+            have : (b.toNat : Int) * (Q : Int) ≤ 127 * (Q : Int) :=
+              Int.mul_le_mul_of_nonneg_right (by omega) (by omega)
+            rw [h255] at hv'
+            omega
+          · have : ((a.toNat : Int) - 256) * (256 * (Q : Int)) ≤ (-2) * (256 * (Q : Int)) :=
+              Int.mul_le_mul_of_nonneg_right (by omega) (by omega)
+            omega
+        · have hsa : shead a = (a.toNat : Int) := by unfold shead; simp [hs]
+          rw [hsa] at hv'
+          by_cases h0 : a.toNat = 0
+          · have hb128 : b.toNat ≥ 128 := by
+              apply Classical.byContradiction; intro hh; exact hc.1 ⟨h0, by omega⟩
+            have : 128 * (Q : Int) ≤ (b.toNat : Int) * (Q : Int) :=
+              Int.mul_le_mul_of_nonneg_right (by omega) (by omega)
+            rw [h0] at hv'
+            omega
+          · have : 1 * (256 * (Q : Int)) ≤ (a.toNat : Int) * (256 * (Q : Int)) :=
+              Int.mul_le_mul_of_nonneg_right (by omega) (by omega)
+            omega
+  exact sval_inj d' d (by omega) (by rw [hv, hv'])
 
 /-! ## Real at the level of the Python float (Model.Ieee) -/
 
